@@ -264,7 +264,7 @@ impl Property for C16 {
         "C16"
     }
     fn rule(&self) -> String {
-        "random network (as aeon; fully specified ones also taken through bnet / sbml text first) x label -> set map (labels: name words incl. `formula-<i>`, digits, operator-like; sets: empty / full / random coloured sets, and raw results of generated formulae) x formula list: build_result_archive (in half of the cases the target path already holds an older archive with other labels and a longer formula list) -> zip entries are exactly one per result + model + formula list -> graph rebuilt from the archived model with the same k has identical symbolic variables -> load_bdd_bundle returns the same labels with BDD-equal sets -> extended formulae evaluate identically with reloaded and in-memory context sets; analyse_formulae's own archive: entry formula-<i> == library result of line i. Non-trivial: >= 2 labels, >= 2 different sets, one of them neither empty nor full.".into()
+        "random network (as aeon; fully specified ones also taken through bnet / sbml text first) x label -> set map (labels: name words incl. `formula-<i>`, digits, operator-like; sets: empty / full / random coloured sets, and raw results of generated formulae) x formula list: build_result_archive (in half of the cases the target path already holds an older archive with other labels and a longer formula list) -> zip entries are exactly one per result + model + formula list -> graph rebuilt from the archived model with the same k has identical symbolic variables -> load_bdd_bundle returns the same labels with BDD-equal sets -> extended formulae evaluate identically with reloaded and in-memory context sets; analyse_formulae's own archive: entry formula-<i> == library result of line i. Deterministic stage: archives holding a set with a BDD dump of several MiB (2^17 nodes; thorough: 2^12..2^18). Non-trivial: >= 2 labels, >= 2 different sets, one of them neither empty nor full.".into()
     }
     fn assumptions(&self) -> Vec<String> {
         vec!["temporary files are written below the system temp directory and removed after each case".into()]
@@ -292,6 +292,101 @@ impl Property for C16 {
         }
     }
     fn replay(&self, case: &Value) -> Verdict {
+        if case.get("big_pairs").is_some() {
+            return match big_entry_case(case["big_pairs"].as_u64().unwrap_or(17) as usize) {
+                Ok(rep) => Verdict::Pass(rep),
+                Err(f) => Verdict::Fail(f),
+            };
+        }
         replay_with(case, check)
     }
+    fn extra_stages(&self, tier: Tier, _seed: u64, stats: &mut Stats) -> Option<Failure> {
+        // "arbitrary sets" includes big ones: sets whose BDD dump is several MiB
+        for pairs in tier.pick(vec![17usize], vec![12, 16, 17, 18]) {
+            match big_entry_case(pairs) {
+                Ok(rep) => stats.add(rep),
+                Err(f) => return Some(f),
+            }
+        }
+        stats.stages.insert("large-entries".into(), json!({"pairs": tier.pick(vec![17], vec![12, 16, 17, 18])}));
+        None
+    }
+}
+
+/// Round trip of an archive holding a set whose BDD has about 2^pairs nodes: the disjunction of
+/// `v_i & v_(i+pairs)` over a network of 2*pairs frozen variables (the alphabetical variable order
+/// is the worst one for this function), next to a small set and the empty set.
+fn big_entry_case(pairs: usize) -> Result<CaseReport, Failure> {
+    use biodivine_lib_param_bn::biodivine_std::traits::Set;
+    let n = 2 * pairs;
+    let name = |i: usize| format!("v{i:02}");
+    let aeon: String = (0..n).map(|i| format!("{0} -> {0}\n${0}: {0}\n", name(i))).collect();
+    let case_json = json!({"big_pairs": pairs});
+    let fail = |class: &str, msg: String| Failure {
+        class: class.to_string(),
+        message: msg,
+        case: case_json.clone(),
+    };
+    let bn = BooleanNetwork::try_from(aeon.as_str()).map_err(|e| fail("C16:harness", e))?;
+    let g = get_extended_symbolic_graph(&bn, 1).map_err(|e| fail("C16:harness", e))?;
+    let vars: Vec<_> = bn.variables().collect();
+    let mut big = g.mk_empty_colored_vertices();
+    for i in 0..pairs {
+        let cube = g
+            .unit_colored_vertices()
+            .fix_network_variable(vars[i], true)
+            .fix_network_variable(vars[i + pairs], true);
+        big = big.union(&cube);
+    }
+    let small = g.unit_colored_vertices().fix_network_variable(vars[0], false);
+    let mut results: LabelToSetMap = LabelToSetMap::new();
+    results.insert("big".into(), big.clone());
+    results.insert("small".into(), small);
+    results.insert("none".into(), g.mk_empty_colored_vertices());
+    let dir = tempfile::tempdir().expect("tempdir");
+    let zip_path = dir.path().join("big.zip").to_string_lossy().to_string();
+    let formulae = vec!["%big% & v00".to_string()];
+    match guard(|| build_result_archive(results.clone(), &zip_path, &bn.to_string(), formulae.clone())) {
+        Ok(Ok(())) => {}
+        other => return Err(fail("C16:archive-not-written", format!("large archive: {:?}", other.map(|r| r.map_err(|e| e.to_string()))))),
+    }
+    let entries = read_zip(&zip_path).map_err(|e| fail("C16:archive-unreadable", e))?;
+    let dump_len = entries.get("big.bdd").map(|s| s.len()).unwrap_or(0);
+    let bn2 = BooleanNetwork::try_from(entries.get("model.aeon").map(|s| s.as_str()).unwrap_or(""))
+        .map_err(|e| fail("C16:archived-model-unreadable", e))?;
+    let g2 = get_extended_symbolic_graph(&bn2, 1).map_err(|e| fail("C16:archived-model-unusable", e))?;
+    let loaded = match guard(|| load_bdd_bundle(&zip_path, g2.symbolic_context())) {
+        Ok(Ok(m)) => m,
+        Ok(Err(e)) => return Err(fail("C16:archive-not-loaded", format!("archive with a {dump_len}-byte entry written by the library itself: {e}"))),
+        Err(p) => return Err(fail(&format!("C16:panic:{}", panic_site(&p)), p)),
+    };
+    for (label, set) in &results {
+        match loaded.get(label) {
+            Some(s) if s.as_bdd() == set.as_bdd() => {}
+            Some(s) => {
+                return Err(fail(
+                    "C16:set-differs-after-reload",
+                    format!(
+                        "label `{label}` ({} BDD nodes, dump of {dump_len} bytes for `big`): {} elements written, {} after reload",
+                        set.as_bdd().size(),
+                        set.approx_cardinality(),
+                        s.approx_cardinality()
+                    ),
+                ))
+            }
+            None => return Err(fail("C16:labels-differ", format!("label `{label}` missing after reload"))),
+        }
+    }
+    let a = guard(|| model_check_extended_formula_dirty(&formulae[0], &g, &results));
+    let b = guard(|| model_check_extended_formula_dirty(&formulae[0], &g2, &loaded));
+    match (a, b) {
+        (Ok(Ok(x)), Ok(Ok(y))) if x.as_bdd() == y.as_bdd() => {}
+        _ => return Err(fail("C16:reloaded-context-differs", "large set used as wild-card context: reloaded and in-memory results differ".into())),
+    }
+    Ok(CaseReport {
+        nontrivial: true,
+        key: hash_of(&("big", pairs)),
+        classes: vec![format!("large-entry:{}MiB", dump_len >> 20)],
+        sample: json!({"network": format!("{n} frozen variables"), "set": format!("disjunction of {pairs} pairs v_i & v_(i+{pairs})"), "bdd_nodes": big.as_bdd().size(), "dump_bytes": dump_len}),
+    })
 }
